@@ -85,11 +85,12 @@ OnWerr == Is("werr") /\ WriteBreaks /\ Consume
 OnTick == Is("tick") /\ Tick(Ev.d) /\ Consume
 OnConn == Is("connector") /\ (IF Ev.race THEN ConnectorResultRacing(Ev.res) ELSE ConnectorResult(Ev.res)) /\ Consume
 
+OnHold == Is("whold") /\ WriteHold(Ev.on) /\ Consume
 OnPort == Is("port") /\ PortSet(Ev.ok) /\ Consume
 
 OnQuiet == Is("q") /\ Quiescent /\ UNCHANGED <<s, out>> /\ Consume
 
-TraceNext == OnTask \/ OnCfg \/ OnSubmit \/ OnCmd \/ OnPeer \/ OnEof \/ OnWerr \/ OnTick \/ OnConn \/ OnPort \/ OnQuiet
+TraceNext == OnTask \/ OnCfg \/ OnSubmit \/ OnCmd \/ OnPeer \/ OnEof \/ OnWerr \/ OnTick \/ OnConn \/ OnPort \/ OnHold \/ OnQuiet
 
 TraceSpec == TraceInit /\ [][TraceNext]_tvars
 
